@@ -152,6 +152,7 @@ inductive InBlock : Node → Node → Prop where
   | begin (n n1 n2 : Node) (t : Int) (h : InBlock n n1) (hb : n1.begin t = .ok n2) : InBlock n n2
   | deliver (n n1 : Node) (wall : Nat) (tx : Tx) (h : InBlock n n1) : InBlock n (n1.deliver wall tx).1
   | check (n n1 : Node) (tx : Tx) (h : InBlock n n1) : InBlock n (n1.checkTx tx).1
+  | recheck (n n1 : Node) (tx : Tx) (h : InBlock n n1) : InBlock n (n1.recheckTx tx).1
   | endBlock (n n1 : Node) (wall : Nat) (govs : List (List Msg)) (h : InBlock n n1) : InBlock n (n1.endBlock wall govs).1
 
 /-- only Commit changes the committed state -/
@@ -163,6 +164,7 @@ theorem c01_only_commit_publishes (n n' : Node) (h : InBlock n n') : n'.committe
     obtain ⟨_, _, rfl⟩ := hb; exact ih
   | deliver n1 wall tx _ ih => exact ih
   | check n1 tx _ ih => exact ih
+  | recheck n1 tx _ ih => exact ih
   | endBlock n1 wall govs _ ih => exact ih
 
 theorem runBlock_depends_on_committed_only (n n' : Node) (wall : Nat) (b : Block) (h : n'.committed = n.committed) :
